@@ -3,7 +3,7 @@
     the conversion of the type byte BEFORE the other fields are looked at, `validate` on the assembled header, the read
     of exactly twelve bytes and the magic pre-check. *)
 From Coq Require Import ZArith List Bool Lia.
-From Copia Require Import Gen.Constants Model.LoopLib Model.Checksum Model.Delta Model.Bincode Model.Protocol Gen.ProtocolGen Proofs.TieProtocol Gen.ProtocolHeaderGen.
+From Copia Require Import Gen.Constants Model.LoopLib Model.Checksum Model.Delta Model.Bincode Model.Protocol Proofs.BincodeProofs Gen.ProtocolGen Proofs.TieProtocol Gen.ProtocolHeaderGen.
 Import ListNotations.
 Open Scope Z_scope.
 
@@ -85,14 +85,25 @@ Proof.
   rewrite get_seq_u8_take by lia. destruct (take_exact (h_length h) rest) as [[payload rest']|]; reflexivity.
 Qed.
 
+(** ** Codec::write_message: the payload length must fit 32 bits and the bound, then header and payload *)
+Lemma tie_write_message (decode_message : list Z -> option (message * list Z)) (m : message) :
+  g_write_message m = write_message m.
+Proof.
+  unfold g_write_message, write_message, lenZ. cbv zeta. rewrite zlen_spec. change P32 with 4294967296.
+  destruct (Z.of_nat (length (encode_message m)) >=? 4294967296); cbn [orb]; [reflexivity|].
+  destruct (Z.of_nat (length (encode_message m)) >? MAX_PAYLOAD_SIZE); [reflexivity|].
+  rewrite tie_header_new. reflexivity.
+Qed.
+
 Definition protocol_header_is_translation : Prop :=
   (forall t len, g_header_new t len = header_new t len) /\
   (forall checked h, g_header_encode checked h = header_encode_ck checked h) /\
   (forall buf, length buf = 12%nat -> g_header_decode buf = header_decode buf) /\
   (forall inp, g_header_read_from inp = read_from inp) /\
-  (forall utf8 inp, g_read_message (decode_message utf8) inp = read_message utf8 inp).
+  (forall utf8 inp, g_read_message (decode_message utf8) inp = read_message utf8 inp) /\
+  (forall m, g_write_message m = write_message m).
 Lemma protocol_header_is_translation_holds : protocol_header_is_translation.
-Proof. split; [exact tie_header_new|]. split; [exact tie_header_encode|]. split; [exact tie_header_decode|]. split; [exact tie_header_read_from|exact tie_read_message]. Qed.
+Proof. split; [exact tie_header_new|]. split; [exact tie_header_encode|]. split; [exact tie_header_decode|]. split; [exact tie_header_read_from|]. split; [exact tie_read_message|exact (tie_write_message (fun _ => None))]. Qed.
 
 Example protocol_header_nonvacuous :
   g_header_encode true (g_header_new TDeltaData 258) = Some [67; 79; 80; 65; 2; 1; 0; 0; 3; 1; 0; 0] /\
